@@ -2,8 +2,49 @@
    Full-strength statement: C04 (see DESIGN.md section 7) (Cluster/Statements.v). Proved so far: the theorems below; what is
    not yet proved is decided on every run by the lock-step co-simulation (model = implementation on every
    explored schedule) together with the monitors run on the implementation's own observations. *)
-From RaftV Require Import Cluster.Statements Proofs.RVSpec Proofs.AESpec Proofs.CommitSpec Proofs.ReplySpec.
+From RaftV Require Import Cluster.World Cluster.Statements Proofs.RVSpec Proofs.AESpec Proofs.CommitSpec Proofs.ReplySpec.
+From RaftV Require Import Proofs.ConfStatic Proofs.ElectSafety Proofs.LCFinal.
 Open Scope N_scope.
+
+(* cluster level, every schedule without membership changes and snapshots (crash at any storage write and restart
+   of any set of nodes included; n_log is the log as it is on disk): from the moment an operation is applied
+   anywhere, at every later point of the execution its entry - same index, term and bytes - is in the persistent
+   log of every node of some majority of the voters. (That every node applying that index applies that operation
+   is C01_state_machine_safety_partial.) Uses excluded middle (axiom `classic`). *)
+Theorem C04_applied_durable_on_majority : forall ids boot et ld ls1 ls2,
+  static (ls1 ++ ls2) = true -> nosnap (ls1 ++ ls2) = true ->
+  let w1 := run (init_world ids boot et ld) ls1 in
+  let w2 := run w1 ls2 in
+  forall i t p, applied_in w1 i t p ->
+  exists e V, e_index e = i /\ e_term e = t /\ e_kind e = KOp p /\
+    NoDup V /\ incl V (voters (bootconf boot)) /\ (length (voters (bootconf boot)) < 2 * length V)%nat /\
+    forall nv, In nv (w_nodes w2) -> In (n_id nv) V -> In e (n_log nv).
+Proof. exact applied_durable_on_majority. Qed.
+Print Assumptions C04_applied_durable_on_majority.
+
+(* not vacuous: a schedule (3 nodes) in which node 0 is elected in term 1, replicates, commits and applies the
+   operation 7 at index 3 (first point: c07_ls1), then node 1 applies it and is elected in term 2 (second point) *)
+Definition c07_ls1 : list label :=
+  [LTick 4; LElection 0; LElectionRun 0; LTask 0; LTask 0; LDeliver 0; LReply 0; LElectionRun 0; LTask 0; LTask 0;
+   LDeliver 1; LReply 1; LDeliver 2; LReply 2; LTask 0; LTask 0; LDeliver 4; LDeliver 5;
+   LReply 4; LReply 5; LCommit 0; LApply 0; LSubmit 0 OReplicated 7; LTask 0; LTask 0;
+   LDeliver 6; LDeliver 7; LReply 6; LReply 7; LCommit 0; LApply 0; LTask 0; LTask 0].
+Definition c07_ls2 : list label :=
+  [LDeliver 8; LDeliver 9; LApply 1; LTick 20; LElection 1; LElectionRun 1; LTask 1; LTask 1;
+   LDeliver 11; LReply 11; LElectionRun 1; LTask 1; LTask 1; LDeliver 13; LReply 13].
+Definition c07_view (w : world) :=
+  map (fun n => (n_role n, n_frozen n, n_term n, n_commit n, n_applies n, map (fun e => (e_index e, e_term e)) (n_log n))) (w_nodes w).
+Example C04_cluster_not_vacuous :
+  static (c07_ls1 ++ c07_ls2) = true /\ nosnap (c07_ls1 ++ c07_ls2) = true /\
+  let w1 := run (init_world [0; 1; 2] [0; 1; 2] 4 2) c07_ls1 in
+  let w2 := run w1 c07_ls2 in
+  c07_view w1 = [(Leader, false, 1, 3, [(3, 1, 7)], [(0, 0); (1, 1); (2, 1); (3, 1)]);
+                 (Follower, false, 1, 2, [], [(0, 0); (1, 1); (2, 1); (3, 1)]);
+                 (Follower, false, 1, 2, [], [(0, 0); (1, 1); (2, 1); (3, 1)])] /\
+  c07_view w2 = [(Leader, false, 1, 3, [(3, 1, 7)], [(0, 0); (1, 1); (2, 1); (3, 1)]);
+                 (Leader, false, 2, 3, [(3, 1, 7)], [(0, 0); (1, 1); (2, 1); (3, 1); (4, 2)]);
+                 (Follower, false, 2, 3, [], [(0, 0); (1, 1); (2, 1); (3, 1)])].
+Proof. split; [reflexivity|]. split; [reflexivity|]. cbn zeta. split; vm_compute; reflexivity. Qed.
 
 (* becomeFollower (every term change, every step-down) never touches the commit index, the applied index, the
    snapshot boundary, the stored snapshots, the state machine or its apply history *)
